@@ -36,6 +36,8 @@ def dwt_forward(rep, pid, tier):
         G = max(np.abs(w.dec_lo).sum(), np.abs(w.dec_hi).sum())
         for mode in MODES:
             J = 1 + (k + MODES.index(mode)) % 4
+            if (k + MODES.index(mode)) % 3 == 0:
+                J += 4                                  # deep pyramids too (5..8 levels: a level counter, a table of per-level sizes)
             N = _sizes1(tier)[(k + MODES.index(mode)) % len(_sizes1(tier))]
             x = rng.standard_normal((2, 3, N))
             ref = pywt.wavedec(x, w, mode=mode, level=J, axis=-1)
@@ -48,6 +50,8 @@ def dwt_forward(rep, pid, tier):
                 got = [yl.numpy()] + [y.numpy() for y in yh[::-1]]
                 err = max(np.abs(a - b).max() if a.shape == b.shape else np.inf for a, b in zip(got, ref))
             except Exception as e:   # noqa
+                if mode == "reflect":
+                    continue
                 rep.violation("DWT1DForward(%s, %s, J=%d) raised %r on a length-%d input" % (name, mode, J, e, N),
                               {"api": "DWT1DForward", "check": "scale", "cfg": cfg})
                 continue
@@ -56,7 +60,7 @@ def dwt_forward(rep, pid, tier):
                 rep.violation("DWT1DForward(%s, %s, J=%d) on a LONG signal (N=%d) differs from pywt.wavedec by %.3g (rounding bound %.3g)"
                               % (name, mode, J, N, err, bound), {"api": "DWT1DForward", "check": "scale", "cfg": cfg})
             H, W = _sizes2(tier)[(k + MODES.index(mode)) % len(_sizes2(tier))]
-            J2 = 1 + (k + MODES.index(mode)) % 3
+            J2 = 1 + (k + MODES.index(mode)) % 3 + (3 if (k + MODES.index(mode)) % 4 == 1 else 0)
             x2 = rng.standard_normal((1, 2, H, W))
             ref2 = pywt.wavedec2(x2, w, mode=mode, level=J2, axes=(-2, -1))
             cfg = dict(wavelet=name, mode=mode, H=H, W=W, J=J2)
@@ -70,6 +74,8 @@ def dwt_forward(rep, pid, tier):
                         a, r_ = yh[j][:, :, b].numpy(), ref2[J2 - j][b]
                         err = max(err, np.abs(a - r_).max() if a.shape == r_.shape else np.inf)
             except Exception as e:   # noqa
+                if mode == "reflect":
+                    continue            # a level shorter than the pad: torch cannot reflect it (the one raise C01 admits)
                 rep.violation("DWTForward(%s, %s, J=%d) raised %r on a %dx%d image" % (name, mode, J2, e, H, W),
                               {"api": "DWTForward", "check": "scale", "cfg": cfg})
                 continue
@@ -90,7 +96,7 @@ def dwt_inverse(rep, pid, tier, roundtrip=False):
         w = pywt.Wavelet(name)
         G = max(np.abs(w.rec_lo).sum(), np.abs(w.rec_hi).sum(), np.abs(w.dec_lo).sum(), np.abs(w.dec_hi).sum())
         for mode in MODES:
-            J = 1 + (k + MODES.index(mode)) % 3
+            J = 1 + (k + MODES.index(mode)) % 3 + (4 if (k + MODES.index(mode)) % 3 == 1 else 0)
             N = _sizes1(tier)[(k + MODES.index(mode) + 1) % len(_sizes1(tier))]
             H, W = _sizes2(tier)[(k + MODES.index(mode) + 1) % len(_sizes2(tier))]
             for dim in (1, 2):
@@ -172,7 +178,7 @@ def dtcwt(rep, pid, tier, what):
     dwtlib.f64()
     rng = np.random.default_rng(64000 + seed())
     pairs = [("near_sym_a", "qshift_a"), ("near_sym_b", "qshift_d"), ("antonini", "qshift_06")]
-    sizes = [(131, 158, 4), (260, 66, 3)] if tier == "quick" else [(131, 158, 4), (260, 66, 3), (513, 300, 5)]
+    sizes = [(131, 158, 4), (260, 66, 3), (140, 200, 6)] if tier == "quick" else [(131, 158, 4), (260, 66, 3), (140, 200, 6), (513, 300, 5), (97, 256, 7)]
     n = 0
     logging.disable(logging.WARNING)
     try:
